@@ -55,6 +55,7 @@ RULE = ("grids of dimension 1-3 from CartGrid / TensorGrid / StructuredTriangleG
         "generic pp.Grid (star-shaped and convex polygons with random face directions, merged Cartesian cells giving L-shapes and "
         "cells with hanging nodes, prisms over polygons), with random interior node perturbations that keep cells valid, "
         "in-dimension affine maps (incl. 2-D reflections), consistent re-orientation of random faces, sign-only flips (legacy path), "
+        "geometric scale 2^-20..2^20 applied to all coordinates of about half the cases, graded tensor grids whose cell sizes span up to 2^15, "
         "and rigid rational embeddings of 1-D / 2-D grids in 3-D; coordinates are rationals with small denominators (binary64 values "
         "are sent exactly); non-trivial = not an unmodified unit Cartesian grid; distinct = distinct case descriptions")
 TRUSTED = [
@@ -80,8 +81,8 @@ EXPLANATION = ("FULL in 1-D/2-D: the model is _compute_geometry_2d/_1d as coded 
 ASSUMPTIONS = ["grids are valid: cells are non-degenerate and, for the legacy 2-D path and for 3-D, star-shaped about their temporary centre",
                "planar faces for the centroid / volume identities in 3-D"]
 
-TOL_MODEL = 1e-11
-TOL_ORACLE = 1e-10
+TOL_MODEL = 1e-12   # relative; multiplied by the conditioning factor R = 1 + (largest coordinate) / (smallest face size)
+TOL_ORACLE = 1e-10  # relative to the local cell quantities (no absolute floor), times the same kind of factor per cell
 
 
 # ----------------------------------------------------------------------------- helpers
@@ -178,6 +179,8 @@ def _build(case):
         a = np.array([[float(F(x)) for x in row] for row in case["affine"]["m"]])
         b = np.array([float(F(x)) for x in case["affine"]["b"]])
         nodes = a @ nodes + b.reshape((3, 1))
+    if case.get("scale"):
+        nodes = nodes * 2.0 ** int(case["scale"])  # exact in binary64
     flips, sflips = case.get("flip_faces", []), case.get("flip_signs", [])
     if flips or sflips:
         faces, cells = _topology(g)
@@ -348,7 +351,56 @@ def compare(impl, model, case):
                 f"the construction implies {'oriented' if case['expect_oriented'] else 'legacy'}")
     a = {k: v for k, v in impl.items() if k != "tensor_cells"}
     b = {k: v for k, v in m.items() if k != "tensor_cells"}
-    return deep_compare(a, b, "", tol=TOL_MODEL if case["dim"] < 3 else 1e-10)
+    return _rel_compare(a, b, case)
+
+
+_POS = ("face_centers", "cell_centers")
+_VEC = ("face_normals",)
+
+
+def _num(x):
+    return float(F(x)) if isinstance(x, str) else float(x)
+
+
+def _rel_compare(a, b, case):
+    """scale-free comparison: every field relative to its own magnitude (positions: to the largest coordinate),
+    times R = 1 + largest coordinate / smallest face size (conditioning of the floating point evaluation)"""
+    if set(a) != set(b):
+        return f"keys {sorted(a)} vs {sorted(b)}"
+    if "err" in a or "err" in b:
+        return None if a == b else f"{a} vs {b}"
+    if not any(k in b for k in _POS + _VEC):
+        return deep_compare(a, b, "")
+    dim = case["dim"]
+    pos = np.array([[_num(x) for x in p] for p in b["face_centers"]]) if "face_centers" in b else np.zeros((1, 3))
+    Lg = float(np.max(np.abs(pos))) if pos.size else 0.0
+    if dim == 1:
+        hmin = math.sqrt(min(_num(x) for x in b["cell_len2"]))
+    elif dim == 2:
+        hmin = math.sqrt(min(_num(x) for x in b["face_len2"]))
+    else:
+        hmin = min(math.sqrt(sum(_num(x) ** 2 for x in n)) for n in b["face_normals"]) ** 0.5
+    R = 1.0 + (Lg / hmin if hmin > 0 else 0.0)
+    tol = (TOL_MODEL if dim < 3 else 1e-11) * R
+    for k in a:
+        x, y = a[k], b[k]
+        if isinstance(x, bool) or isinstance(y, bool):
+            if x != y:
+                return f".{k}: {x} vs {y}"
+            continue
+        if len(x) != len(y):
+            return f".{k}: length {len(x)} vs {len(y)}"
+        for i, (u, v) in enumerate(zip(x, y)):
+            if k in _POS or k in _VEC:
+                uu, vv = np.array([_num(t) for t in u]), np.array([_num(t) for t in v])
+                ref = max(Lg, float(np.max(np.abs(vv)))) if k in _POS else max(float(np.max(np.abs(uu))), float(np.max(np.abs(vv))))
+                if uu.shape != vv.shape or float(np.max(np.abs(uu - vv))) > tol * ref:
+                    return f".{k}[{i}]: {uu.tolist()} vs {vv.tolist()} (rel tol {tol:.2e}, ref {ref!r})"
+            else:
+                uu, vv = _num(u), _num(v)
+                if abs(uu - vv) > tol * max(abs(uu), abs(vv)):
+                    return f".{k}[{i}]: {uu!r} vs {vv!r} (rel tol {tol:.2e})"
+    return None
 
 
 # ----------------------------------------------------------------------------- oracle
@@ -378,17 +430,19 @@ def oracle(case):
             return {"what": f"{name} not finite", "key": f"nonfinite-{name}:{tag}"}
     if V.shape != (g.num_cells,) or C.shape != (3, g.num_cells) or Nf.shape != (3, g.num_faces) or A.shape != (g.num_faces,) or Xf.shape != (3, g.num_faces):
         return {"what": "geometry arrays have wrong shapes", "key": f"shape:{tag}"}
-    L = max(1.0, float(np.max(np.abs(g.nodes))))
+    Lg = float(np.max(np.abs(g.nodes)))  # rounding of positions is relative to the largest coordinate
     # (a) positive volumes summing to the domain measure
     if not np.all(V > 0):
         return {"what": f"non-positive cell volume {float(V.min())!r} in cell {int(V.argmin())}", "key": f"volume-positive:{tag}"}
     meas = float(F(case["measure"]))
-    if abs(float(V.sum()) - meas) > TOL_ORACLE * max(1.0, meas):
+    hmin = float(np.min(A)) ** (1.0 / (dim - 1)) if dim > 1 else float(np.min(V))
+    Rg = 1.0 + Lg / hmin
+    if abs(float(V.sum()) - meas) > TOL_ORACLE * Rg * meas:
         return {"what": f"cell volumes sum to {float(V.sum())!r}, domain measure is {meas!r}", "key": f"volume-sum:{tag}"}
     # (b) |normal| = area
     if case.get("planar", True):
         nn = np.sqrt(np.sum(Nf * Nf, axis=0))
-        bad = np.where(np.abs(nn - A) > TOL_ORACLE * np.maximum(1.0, A))[0]
+        bad = np.where(np.abs(nn - A) > TOL_ORACLE * A)[0]
         if bad.size:
             f = int(bad[0])
             return {"what": f"|normal|={float(nn[f])!r} but area={float(A[f])!r} at face {f}", "key": f"normal-length:{tag}"}
@@ -399,7 +453,10 @@ def oracle(case):
         fi = cf.indices[cf.indptr[c]:cf.indptr[c + 1]]
         sg = cf.data[cf.indptr[c]:cf.indptr[c + 1]].astype(float)
         n, xf = Nf[:, fi] * sg, Xf[:, fi] - o
-        scale = float(np.sum(np.sqrt(np.sum(n * n, axis=0))))
+        scale = float(np.sum(np.sqrt(np.sum(n * n, axis=0))))  # sum of the face areas of the cell
+        hc = float(np.max(np.sqrt(np.sum((Xf[:, fi] - C[:, c].reshape((3, 1))) ** 2, axis=0))))  # cell radius
+        L = float(np.max(np.sqrt(np.sum(xf * xf, axis=0))))  # distance of the cell from the reference point
+        Rc = 1.0 + Lg / hc  # conditioning: positions carry rounding errors relative to Lg, the cell has size hc
         # (c) outward with positive sign
         if case.get("convex", True):
             d = np.sum(n * (Xf[:, fi] - C[:, c].reshape((3, 1))), axis=0)
@@ -417,17 +474,17 @@ def oracle(case):
                     return {"what": f"normal of face {int(f)} times sign does not point out of the (non-convex) cell {c}", "key": f"outward:{tag}"}
         # (d) closed cell
         s0 = np.sum(n, axis=1)
-        if np.max(np.abs(s0)) > TOL_ORACLE * max(1.0, scale):
+        if np.max(np.abs(s0)) > TOL_ORACLE * Rc * scale:
             return {"what": f"signed sum of face normals of cell {c} is {s0.tolist()}", "key": f"closed-cell:{tag}"}
         if case.get("planar", True):
             # (e) sum sign (x_f . n) = dim V
             xn = np.sum(xf * n, axis=0)
-            if abs(float(np.sum(xn)) - dim * V[c]) > TOL_ORACLE * max(1.0, scale * L):
+            if abs(float(np.sum(xn)) - dim * V[c]) > TOL_ORACLE * Rc * scale * max(L, hc):
                 return {"what": f"cell {c}: sum sign x_f.n = {float(np.sum(xn))!r} but dim*V = {float(dim * V[c])!r}", "key": f"volume-identity:{tag}"}
             # (f) sum sign (x_f . n) x_f = (dim+1) V c
             lhs = np.sum(xn * xf, axis=1)
             rhs = (dim + 1) * V[c] * (C[:, c] - o[:, 0])
-            if np.max(np.abs(lhs - rhs)) > TOL_ORACLE * max(1.0, scale * L * L):
+            if np.max(np.abs(lhs - rhs)) > TOL_ORACLE * Rc * scale * max(L, hc) ** 2:
                 return {"what": f"cell {c}: sum sign (x_f.n) x_f = {lhs.tolist()} but (dim+1) V c = {rhs.tolist()}", "key": f"centroid-identity:{tag}"}
     return None
 
@@ -479,13 +536,28 @@ def _gen_struct(rng, tier, dim):
     case = {"kind": kind, "dim": dim, "planar": True}
     if kind == "tensor":
         coords = []
+        graded = rng.random() < 0.4
         for d in range(dim):
             x = fr(rng, -2, 2)
             c = [x]
-            for _ in range(nx[d]):
-                x += Fraction(rng.randint(2, 12), 8)
+            if graded:
+                # cell sizes spread over orders of magnitude: at least one of order 1 and one tiny (dyadic, exact in binary64)
+                nx[d] = max(nx[d], 2)
+                es = [rng.randint(0, 12) for _ in range(nx[d])]
+                es[rng.randrange(nx[d])] = 0
+                j = rng.randrange(nx[d])
+                if es[j] == 0 and es.count(0) == 1:
+                    j = (j + 1) % nx[d]
+                es[j] = rng.randint(8, 12)
+                incs = [Fraction(rng.randint(1, 8), 2 ** e) for e in es]
+            else:
+                incs = [Fraction(rng.randint(2, 12), 8) for _ in range(nx[d])]
+            for h in incs:
+                x += h
                 c.append(x)
             coords.append(c)
+        if graded:
+            case["graded"] = True
         case["coords"] = [[frac(x) for x in c] for c in coords]
         meas = Fraction(1)
         for c in coords:
@@ -876,6 +948,17 @@ def _gen_islands(rng, tier):
 
 
 def gen_case(rng, tier):
+    case = _gen_case(rng, tier)
+    if rng.random() < 0.55:
+        # geometric scale: all coordinates times a power of two (exact), measure scales with 2^(k dim)
+        k = rng.choice([-20, -20, -16, -12, -10, -7, -3, 3, 7, 10, 14, 20]) if rng.random() < 0.8 else rng.randint(-20, 20)
+        if k:
+            case["scale"] = k
+            case["measure"] = frac(F(case["measure"]) * Fraction(2) ** (k * case["dim"]))
+    return case
+
+
+def _gen_case(rng, tier):
     r = rng.random()
     if r < 0.12:
         case, _ = _gen_struct(rng, tier, 1)
@@ -920,6 +1003,11 @@ def nontrivial(case):
 
 
 def shrink_candidates(case):
+    if case.get("scale"):
+        c = dict(case)
+        c["measure"] = frac(F(case["measure"]) / Fraction(2) ** (case["scale"] * case["dim"]))
+        del c["scale"]
+        yield c
     for k in ("perturb", "flip_faces", "flip_signs"):
         v = case.get(k)
         if v:
@@ -954,6 +1042,8 @@ def stats(cases, impl_outs):
             "embedded_oracle_only": sum(1 for c in cases if c.get("embedded")), "reoriented_faces": sum(1 for c in cases if c.get("flip_faces")),
             "sign_only_flips": sum(1 for c in cases if c.get("flip_signs")), "nonplanar_3d": sum(1 for c in cases if not c.get("planar", True)),
             "nonconvex_cells": sum(1 for c in cases if not c.get("convex", True)), "islands": sum(1 for c in cases if c.get("islands")),
+            "scaled": {str(k): sum(1 for c in cases if c.get("scale", 0) == k) for k in sorted(set(c.get("scale", 0) for c in cases))},
+            "graded_tensor": sum(1 for c in cases if c.get("graded")),
             "legacy_path_2d": sum(1 for o in impl_outs if isinstance(o, dict) and o.get("oriented") is False),
             "oriented_path_2d": sum(1 for o in impl_outs if isinstance(o, dict) and o.get("oriented") is True),
             "impl_errors": sum(1 for o in impl_outs if isinstance(o, dict) and "err" in o)}
